@@ -104,6 +104,15 @@ def gen_large(rng, kind):
         case["K"] = int(rng.integers(2, 5))
         case["limit"] = int(rng.choice([2, 6]))
         case["m"] = int(rng.choice([5, 20, 60]))
+    elif kind == "verylong":
+        # beyond 4096 and 8192 stacked windows (block sizes of chunked / rebased kernels), clusters of thousands of windows
+        case["data"].update(T=int(rng.choice([4500, 6000, 9000, 13000])), N=1, n_reg=2, seg=int(rng.integers(300, 1500)))
+        case["W"] = 1
+        case["K"] = 2
+        case["limit"] = 3
+        case["m"] = 20
+        case["beta"] = dict(form="float", value=float(rng.choice([5.0, 400.0, 3000.0])))
+        case["lam"] = dict(form="float", value=0.11)
     elif kind == "manyK":
         case["data"].update(T=int(rng.integers(300, 520)), N=int(rng.integers(1, 3)), n_reg=6, seg=12)
         case["W"] = 1 if case["data"]["N"] == 2 else int(rng.integers(1, 3))
@@ -133,6 +142,10 @@ def gen_joint(rng, profile="general"):
         ns = int(rng.integers(2, 7))
     W, K = case["W"], case["K"]
     Ts = [int(W + rng.integers(3, 60)) for _ in range(ns)]
+    if rng.random() < 0.12:
+        # a dozen short series (more than ten: anything keyed or sorted by a series number shows here)
+        ns = int(rng.integers(11, 15))
+        Ts = [int(W + rng.integers(3, 16)) for _ in range(ns)]
     if rng.random() < 0.2 and ns > 1:
         Ts = [Ts[0]] * ns                          # all series of one shape
     if rng.random() < 0.3 and ns > 1:
